@@ -100,6 +100,7 @@ class Unit:
         self.restrict_fp = list(restrict_fp)
         self.assumed = list(assumed)          # assumptions specific to this unit
         self.static_fns = list(static_fns)
+        self.optional = False        # thorough-tier attempt at a unit known to be hard: 'undecided' is reported as attempted, not as a failure of the check
         self.ignore = list(ignore)   # regexes on obligation descriptions that are outside the property (each listed as an assumption)
 
 
@@ -456,7 +457,7 @@ def run_unit(unit, tier='quick', keep_dir=None):
             return res
         res.cmds = info['cmds']
         res.n_loop_contracts = info.get('n_loop_contracts', 0)
-        timeout = unit.timeout * (1 if tier == 'quick' else 6)
+        timeout = unit.timeout * (1 if (tier == 'quick' or getattr(unit, 'optional', False)) else 6)
         for be in unit.backends:
             outp = os.path.join(wd, 'out_%s.json' % be)
             cmd = cbmc_cmd(unit, gb, be)
